@@ -55,13 +55,14 @@ class AbstractModule(StructuredRecord):
         """
         upstream = cls.cutter.elucidate()
         downstream = str(Seq(upstream).reverse_complement())
-        return "".join(
-            [
-                upstream.replace("^", "(").replace("_", ")("),
-                "N*",
-                downstream.replace("^", ")").replace("_", ")("),
-            ]
-        )
+        if cls.cutter.is_3overhang():
+            # the bottom strand mark comes first: swap the roles of the marks
+            upstream = upstream.replace("_", "(").replace("^", ")(")
+            downstream = downstream.replace("_", ")").replace("^", ")(")
+        else:
+            upstream = upstream.replace("^", "(").replace("_", ")(")
+            downstream = downstream.replace("^", ")").replace("_", ")(")
+        return "".join([upstream, "N*", downstream])
 
     def overhang_start(self):
         # type: () -> Seq
